@@ -941,6 +941,13 @@ func c05Check(c c05Case) engine.Result {
 						in[i] = fill[(i-c.A)%len(fill)]
 					}
 					c05Exec(&res, e, in, &scratch)
+					// a 16-bit length that its 64 KiB of two-byte items satisfy exactly (0xFFFF never is: it is odd)
+					if ff >= 0 && L == 65600 && len(fill) <= 2 && fill[0] <= 0x01 {
+						for _, plant := range [...]byte{0xFE, 0xFC} {
+							in[ff+1] = plant
+							c05Exec(&res, e, in, &scratch)
+						}
+					}
 				}
 			}
 			if len(res.Fail) > 40 {
@@ -1300,7 +1307,7 @@ func c05Gen(family string) func(r *engine.Run, emit func(c05Case)) {
 				for si, s := range seeds {
 					maxCut := min(len(s), 40)
 					if !r.Thorough() {
-						maxCut = min(len(s), 20)
+						maxCut = min(len(s), 24) // up to the byte after a time_signal's descriptor_loop_length
 					}
 					for cut := 0; cut <= maxCut; cut++ {
 						b := 0
@@ -1381,7 +1388,7 @@ func init() {
 			c05Scenario("short-strings", "short", "ALL byte strings of length 0..2 (thorough: 0..3) for each of the 19 byte-string/stream entry points (PSI helpers, NewPAT, NewPMT, descriptor decoders, NewPESHeader, ReadEncoderBoundaryPoint, NewSCTE35, FromBytes, stream readers)."+common),
 			c05Scenario("seed-mutations", "mut1", "for each entry point and each well-formed seed of its pool (reference-built PAT/PMT/PES/EBP structures and packets + byte vectors captured from the repository's tests + SCTE-35 sections built through the creation API): the seed, EVERY truncation, extensions by 1..3 bytes of 00/FF, and EVERY byte position (all positions up to 72 bytes, else the first 56 and last 8) set to EVERY value 0..255, plus the mutated seed cut right after the mutated byte."+common),
 			c05Scenario("seed-double-mutations", "mut2", "pairs of mutations (position1 < position2, both from 16 interesting values 00,01,02,03,0D,34,47,7F,80,90,B0,F0,FC,FD,FE,FF) on every 4th seed (thorough: every seed) of every byte-string and packet entry point."+common),
-			c05Scenario("long-inputs", "long", "index-wraparound family: for every seed and every cut position up to 20 (thorough 40), the valid prefix is extended with each of 6 fills (00, 80, 90, FF, (01 FC)*, (01 00)*) to total lengths {255,256,257,300} and, for the SCTE-35/PMT/accumulator-predicate entry points, {4096,65535,65536,65537,65545,65600}, each also with 0xFFFF planted at every 2-byte position before the cut (makes 8-/16-bit cursors and length fields wrap); plus two-segment tails (a run of 80/90/FF ending at every position 243..258 followed by 00/10/7F, total 300 bytes) for chains that end next to the 8-bit cursor limit."+common),
+			c05Scenario("long-inputs", "long", "index-wraparound family: for every seed and every cut position up to 24 (thorough 40), the valid prefix is extended with each of 6 fills (00, 80, 90, FF, (01 FC)*, (01 00)*) to total lengths {255,256,257,300} and, for the SCTE-35/PMT/accumulator-predicate entry points, {4096,65535,65536,65537,65545,65600}, each also with 0xFFFF planted at every 2-byte position before the cut (makes 8-/16-bit cursors and length fields wrap; at 65600 bytes also 0xFFFE and 0xFFFC, which 64 KiB of two-byte items satisfy exactly); plus two-segment tails (a run of 80/90/FF ending at every position 243..258 followed by 00/10/7F, total 300 bytes) for chains that end next to the 8-bit cursor limit."+common),
 			c05Scenario("generated-scte35", "gen-scte35", "structure-aware SCTE-35 inputs built by the reference encoder with all lengths and the CRC consistent: every descriptor-loop shape of <=3 descriptors over {segmentation, foreign tag 00, foreign tag 01} x 46 UPID/MID variants of the segmentation descriptors (none, single ADI, MIDs of 1..3 entries, stream-switch style MIDs whose ADI text is one of {BLACKOUT, BLACKOUT:, BLACKOUT:abc, xxBLACKOUT, empty, BLACKOUT:BLACKOUT, BLACKOU} and whose ADS text matches / contains / lacks the rotation keyword, delivery restricted or not); each section whole and cut at every byte; all getters incl. StreamSwitchSignalId, the state tracker, String and re-encoding run on whatever decodes."+common),
 			c05Scenario("generated-pmt", "gen-pmt", "structure-aware PMT inputs: 4 reference-built tables x every combination of deltas on four RELATED length fields (section_length -8..+8, program_info_length -3..+3, ES_info_length of the last described stream -6..+6, its last descriptor_length -4..+4), each with the stale CRC_32 and with a CRC_32 recomputed where the new section_length puts it; run through NewPMT (all getters, printers), the accumulator completion predicate and ExtractCRC."+common),
 			c05Scenario("packet-grid", "grid", "packet accessors, modifiers and packet-level PSI helpers on packets with adaptation_field_control 0..3 x adaptation_field_length from 30 boundary values (thorough: all 256) x all 256 flag bytes x private-data length and extension length bytes from {00,01,7F,B0,FF} plus the four values around 'ends exactly on the last byte of the packet' for the given flags, placed where the flags put them."+common),
